@@ -10,8 +10,9 @@ TOML write + read, last `G` = real `to_graph` of those (or `-`), `eq` = the real
 `agree`: model `fromGraph` = first `L` (as a set), TOML layer was the identity, model `toGraph` of the
 re-read records = the real result exactly (node order, edge order), the canonical-form equivalence agrees
 with the real `==`, and (for well-formed graphs) the model's own round trip is an equivalence.
-`prop`: for a well-formed graph the implementation's re-read graph is the original one (`c20PropHolds`
-and the real `==`); nothing is demanded of graphs outside `WFGraph`.
+`prop`: for a graph meeting the assumptions (`AssumedGraph`, class (a)) the implementation's re-read graph
+is the original one (`c20PropHolds` and the real `==`). Class (b) graphs whose round trip fails get `prop=0`
+with `why=<conjunct>` (the known findings `C20-<conjunct>`).
 -/
 namespace SwayVerif.Driver.C20
 open SwayVerif.Lock SwayVerif.Driver SwayVerif.Driver.LockCommon
@@ -27,37 +28,35 @@ def kvOf (ts : List String) (k : String) : String :=
   | some t => (t.drop (k.length + 1)).toString
   | none => "?"
 
-/-- Which conjunct of `WFGraph` fails first (distribution key; `ok` for well-formed graphs). -/
+/-- Which conjunct of `WFGraph` fails first: class (a) (assumptions, prefix `a-`) before class (b)
+(known findings); `ok` for well-formed graphs. For a graph with `AssumedGraph` the answer is a (b) key. -/
 def whyNotWF (ext : Ext) (g : Graph) : String :=
   let pin (p : Pinned) : Option String :=
     if WFPinned ext p then none else
     match p with
-    | .git repo r commit =>
+    | .git repo r _ =>
       if !(noChar '?' repo) then some "git-url-qmark"
-      else if !(decide (ext.url repo = some repo)) then some "git-url-reparse"
-      else if !(validCommitHash commit) then some "git-commit"
       else match r with
         | .rev _ => some "git-rev-not-commit"
         | _ => some "git-ref-hash"
-    | .registry name _ cid ns =>
-      if !(noChar '?' name) then some "reg-name"
-      else if !(validateCid cid) then some "reg-cid-not-v0"
+    | .registry _ _ cid ns =>
+      if !(validateCid cid) then some "reg-cid-not-v0"
       else match ns with
         | some d => if d.isEmpty then some "reg-ns-empty" else some "reg-ns-chars"
         | none => some "reg-other"
     | _ => some "pinned-other"
-  match g.nodes.findSome? (fun p => if WFName p.name then none else some "pkg-name") with
-  | some w => w
-  | none =>
+  if !(g.nodes.all fun p => WFName p.name) then "a-pkg-name"
+  else if !(g.nodes.all fun p => AssumedPinned ext p.source) then "a-pinned"
+  else if !(g.edges.all fun e => WFKind e.kind) then "a-salt"
+  else if !(g.edges.all fun e => e.src < g.nodes.length && e.dst < g.nodes.length) then "a-dangling"
+  else if !(pairwiseB (fun e f => !(e.src = f.src && e.dst = f.dst)) g.edges) then "a-parallel-edges"
+  else
   match g.nodes.findSome? (fun p => pin p.source) with
   | some w => w
   | none =>
   if !(g.nodes.all fun p => noChar '(' p.source.display) then "paren-in-source"
   else if !(pairwiseB (fun p q => !(p.name = q.name && p.source.display = q.source.display)) g.nodes) then "duplicate-node"
   else if !(g.edges.all fun e => WFDepName e.name) then "dep-name-paren"
-  else if !(g.edges.all fun e => WFKind e.kind) then "salt"
-  else if !(g.edges.all fun e => e.src < g.nodes.length && e.dst < g.nodes.length) then "dangling"
-  else if !(pairwiseB (fun e f => !(e.src = f.src && e.dst = f.dst)) g.edges) then "parallel-edges"
   else "ok"
 
 def answer (line : String) : String :=
@@ -108,11 +107,12 @@ def answer (line : String) : String :=
           | _ => false
         let a4 := !wf || thm
         let agree := a1 && toml == "same" && a2 && a3 && a4
-        let prop := c20PropHolds ext g impl && (!wf || eq)
+        let assumed := AssumedGraph ext g
+        let prop := c20PropHolds ext g impl && (!assumed || eq)
         let dis := g.nodes.any (fun p => needsDisambiguation (g.nodes.map (·.name)) p.name)
         let con := g.edges.any (fun e => e.kind != .library)
         let ren := g.edges.any (fun e => match g.nodes[e.dst]? with | some d => e.name != d.name | none => false)
-        s!"{ms} agree={b01 agree} prop={b01 prop} wf={b01 wf} cls={cls} eq={b01 eq} thm={b01 thm} a={b01 a1}{b01 (toml == "same")}{b01 a2}{b01 a3}{b01 a4} why={whyNotWF ext g} nodes={sizeClass g.nodes.length} edges={sizeClass g.edges.length} dis={b01 dis} contract={b01 con} renamed={b01 ren}"
+        s!"{ms} agree={b01 agree} prop={b01 prop} wf={b01 wf} assumed={b01 assumed} cls={cls} eq={b01 eq} thm={b01 thm} a={b01 a1}{b01 (toml == "same")}{b01 a2}{b01 a3}{b01 a4} why={whyNotWF ext g} nodes={sizeClass g.nodes.length} edges={sizeClass g.edges.length} dis={b01 dis} contract={b01 con} renamed={b01 ren}"
     | _, _ => "bad-case agree=0 prop=0"
   | _ => "bad-case agree=0 prop=0"
 
